@@ -259,6 +259,10 @@ func (p *parser) readStructType() *Type {
 				}
 
 			} else {
+				if t.Kind != TypeEnum && len(t.Fields) > 0 {
+					// a bare name after typed fields
+					return nil
+				}
 				t.Kind = TypeEnum
 				p.backup()
 			}
